@@ -87,6 +87,21 @@ def oracle(pystog, case, res):
                 if np.isfinite(two).all() and bad.any():
                     i = int(np.flatnonzero(bad)[0])
                     return "path %s->%s->%s gives %r, direct %r at x=%r" % (names[a], names[z], names[b], float(two[i]), float(v[pos][i]), float(xs[i]))
+        # a strictly positive abscissa is not zero, however small (round-off of a shifted grid, 1e-15 next to 40): defining formula
+        tiny = (x >= 1e-290) & (x < 1e-3) & np.isfinite(y)      # (below that, products with x are subnormal: rounding)
+        if sp == 1 and not (m["rho"] > 0 and m["bcoh"] > 0):
+            tiny = tiny & False
+        if tiny.any():
+            xs, ys = x[tiny], y[tiny]
+            base = L.to_base(sp, a, xs, ys, m)
+            want = L.from_base(sp, b, xs, base, m)
+            scale = 1 + np.abs(want) + np.abs(L.from_base(sp, b, xs, 1 + np.abs(base - 1), m)) + abs(m["btot"]) + np.abs(ys)
+            ok = np.isfinite(want) & np.isfinite(scale) & np.isfinite(v[tiny]) & (np.abs(want) < 1e290)
+            bad = ok & (np.abs(v[tiny] - want) > 1e-9 * scale)
+            if bad.any():
+                i = int(np.flatnonzero(bad)[0])
+                return "%s_to_%s: value %r at the small positive x=%r differs from the defining formula %r (treated as x = 0?)" % (
+                    names[a], names[b], float(v[tiny][i]), float(xs[i]), float(want[i]))
         zero = x == 0
         if zero.any() and np.isfinite(y).all():
             vz = v[zero]
